@@ -123,7 +123,7 @@ def lean_audit(prop, props_files):
     return obligations, problems, cmd
 
 
-def run_driver(model, lines, timeout=600):
+def run_driver(model, lines, timeout=3000):
     if not DRV.exists():
         raise InfraError('driver not built: ' + str(DRV))
     p = subprocess.run([str(DRV), model], input='\n'.join(lines) + '\n', capture_output=True, text=True,
